@@ -89,3 +89,20 @@ Theorem C04_pytree_without_rollback_refuted : exists st l sopt x s vd s',
   pytree_check_src st false l sopt x s = (vd, s') /\ vd <> Acc /\ ps_stack s' <> ps_stack s.
 Proof. exact pytree_check_src_false_refuted. Qed.
 Print Assumptions C04_pytree_without_rollback_refuted.
+
+(* the second half of the property for PyTrees: repeating a PyTree check that passed -- array leaf type, with or without a
+   structure name, '?' axes included, inside a context -- passes again and changes no binding *)
+From JT Require Import proofs.IdemFacts.
+Theorem C04_pytree_pass_idempotent : forall st a, wf_annot a -> forall sopt x m t r s',
+  leafmatch st (LPyTree (LArr a) sopt) x (mkps ((m, t) :: r) None false) = (Acc, s') ->
+  leafmatch st (LPyTree (LArr a) sopt) x s' = (Acc, s').
+Proof. exact pytree_array_leaves_idempotent. Qed.
+Print Assumptions C04_pytree_pass_idempotent.
+
+Example C04_pytree_pass_idempotent_nonvacuous :
+  let arr sh := Leaf (PArr (mkvalue true true "float32" sh)) in
+  let x := Node KTuple [arr [2; 9]%Z; Node KList [arr [3; 9]%Z]] in
+  let s := mkps [(mkmemo [("b", 9%Z)] [] [], [])] None false in
+  exists s', leafmatch [] (LPyTree (LArr (AC None "?a b")) (Some "T")) x s = (Acc, s') /\ ps_stack s' <> ps_stack s /\
+             leafmatch [] (LPyTree (LArr (AC None "?a b")) (Some "T")) x s' = (Acc, s').
+Proof. eexists. split; [vm_compute; reflexivity|]. split; [discriminate | vm_compute; reflexivity]. Qed.
